@@ -16,7 +16,7 @@ ASSUMPTIONS = ["CPython ast parser", "asyncio.Queue is FIFO", "StreamReader.read
 
 def run(chk, program, tier):
     for r, t in (('RX-CONTAIN', 'decode errors contained per packet'), ('RX-ONCE', 'one put per decoded message'), ('Q-FIFO', 'single FIFO consumer, inline shielded callback'),
-                 ('RX-FRAME', 'framing constants'), ('RX-RAISE', 'only end of stream ends the connection'), ('BUF-PROGRESS', 'each processed packet is removed exactly once'), ('SER-STATE', 'serial path state = buffer only')):
+                 ('RX-FRAME', 'framing constants'), ('RX-RAISE', 'only end of stream ends the connection'), ('BUF-PROGRESS', 'each processed packet is removed exactly once'), ('SER-DELIVER', 'every complete window behind a marker reaches the decoder'), ('SER-STATE', 'serial path state = buffer only')):
         chk.rule(r, t)
     K.rx_rules(chk, program)
     K.q_fifo(chk, program)
@@ -26,4 +26,4 @@ def run(chk, program, tier):
     K.handler_cannot_raise(chk, program)
     # consumption of the serial buffer: same clause as C20 BUF-PROGRESS (every iteration removes exactly through start + P)
     from .c16 import _Sub
-    K.buf_rules(_Sub(chk, {'BUF-PROGRESS'}), program)
+    K.buf_rules(_Sub(chk, {'BUF-PROGRESS', 'SER-DELIVER'}), program)
